@@ -54,6 +54,11 @@ theorem inAnotherChunk_memExt_pair {cfg : Cfg} {k : Kind} {s s1 : State} {L : La
   cases he
   exact inAnotherChunk_memExt hv
 
+theorem inAnotherChunk_memExt_fst {cfg : Cfg} {k : Kind} {s : State} {L : Layout} {h : Hints}
+    {v : State × Except AErr (Nat × Nat)} (hv : inAnotherChunk cfg k s L h = .ok v) : MemExt s v.fst := by
+  obtain ⟨v1, v2⟩ := v
+  exact inAnotherChunk_memExt hv
+
 theorem grow_frame {cfg : Cfg} {s s' : State} {ptr oldSize np : Nat} {newL : Layout}
     (hwf : MemWF s') (hold : ∀ k, k < oldSize → InChunks s (ptr + k))
     (h : grow cfg s ptr oldSize newL = .ok (s', .ok np)) : Realloc s s' ptr np oldSize newL.size := by
@@ -67,5 +72,109 @@ theorem grow_frame {cfg : Cfg} {s s' : State} {ptr oldSize np : Nat} {newL : Lay
     | exact Realloc.of_copy (alloc_memExt (by assumption)) hwf hold (by assumption) hsz
     | exact Realloc.of_copy (inAnotherChunk_memExt_pair (by assumption) (by assumption)) hwf hold (by assumption) hsz
     | exact (Realloc.of_copy (MemExt.refl _) hwf.of_setCurPos hold (by assumption) hsz).setCurPos _
+
+theorem shrink_frame {cfg : Cfg} {s s' : State} {ptr oldSize np nsize : Nat} {newL : Layout}
+    (hwf : MemWF s') (hold : ∀ k, k < newL.size → InChunks s (ptr + k))
+    (h : shrink cfg s ptr oldSize newL = .ok (s', .ok (np, nsize))) : Realloc s s' ptr np newL.size nsize := by
+  unfold shrink at h
+  simp only [bind, Except.bind, pure, Except.pure, throw, throwThe, MonadExceptOf.throw] at h
+  repeat' split at h
+  all_goals first | (cases h; done) | (cases h)
+  all_goals first
+    | exact Realloc.of_memOf rfl _ _ _
+    | exact Realloc.of_memOf (memOf_setCurPos _ _) _ _ _
+    | exact Realloc.of_copy (alloc_memExt (by assumption)) hwf hold (by assumption) (Nat.le_refl _)
+    | exact (Realloc.of_copy (MemExt.refl _) hwf.of_setCurPos hold (by assumption) (Nat.le_refl _)).setCurPos _
+    | exact Realloc.of_copy (MemExt.of_eq ((tryCur_memOf (by assumption)).trans (deallocAssumeLast_memOf (by assumption))))
+        hwf hold (by assumption) (Nat.le_refl _)
+    | exact Realloc.of_copy
+        ((MemExt.of_eq ((memOf_setCurPos _ _).trans (deallocAssumeLast_memOf (by assumption)))).trans
+          (inAnotherChunk_memExt_fst (by assumption)))
+        hwf hold (by assumption) (Nat.le_refl _)
+
+theorem shrinkWithoutShrink_frame {cfg : Cfg} {s s' : State} {ptr oldSize np nsize : Nat} {newL : Layout}
+    (hwf : MemWF s') (hold : ∀ k, k < newL.size → InChunks s (ptr + k))
+    (h : shrinkWithoutShrink cfg s ptr oldSize newL = .ok (s', .ok (np, nsize))) :
+    Realloc s s' ptr np newL.size nsize ∧ nsize = newL.size := by
+  unfold shrinkWithoutShrink at h
+  simp only [bind, Except.bind, pure, Except.pure, throw, throwThe, MonadExceptOf.throw] at h
+  repeat' split at h
+  all_goals first | (cases h; done) | (cases h)
+  all_goals refine ⟨?_, rfl⟩
+  all_goals first
+    | exact Realloc.of_memOf rfl _ _ _
+    | exact Realloc.of_copy (alloc_memExt (by assumption)) hwf hold (by assumption) (Nat.le_refl _)
+
+theorem shrinkSlice_frame {cfg : Cfg} {s s' : State} {ptr oldSize newSize ealign np : Nat}
+    (hwf : MemWF s') (hold : ∀ k, k < newSize → InChunks s (ptr + k))
+    (h : shrinkSlice cfg s ptr oldSize newSize ealign = .ok (s', some np)) :
+    Realloc s s' ptr np newSize newSize := by
+  unfold shrinkSlice at h
+  simp only [bind, Except.bind, pure, Except.pure, throw, throwThe, MonadExceptOf.throw] at h
+  repeat' split at h
+  all_goals first | (cases h; done) | (cases h)
+  all_goals first
+    | exact Realloc.of_memOf (memOf_setCurPos _ _) _ _ _
+    | exact (Realloc.of_copy (MemExt.refl _) hwf.of_setCurPos hold (by assumption) (Nat.le_refl _)).setCurPos _
+
+/-- `shrinkSlice` that declines (`none`) leaves the whole state alone -/
+theorem shrinkSlice_none {cfg : Cfg} {s s' : State} {ptr oldSize newSize ealign : Nat}
+    (h : shrinkSlice cfg s ptr oldSize newSize ealign = .ok (s', none)) : s' = s := by
+  unfold shrinkSlice at h
+  simp only [bind, Except.bind, pure, Except.pure, throw, throwThe, MonadExceptOf.throw] at h
+  repeat' split at h
+  all_goals first | (cases h; done) | (cases h)
+  all_goals rfl
+
+theorem setPosAlignFrom_memOf {cfg : Cfg} {s s' : State} {pos posAlign : Nat}
+    (h : setPosAlignFrom cfg s pos posAlign = .ok s') : memOf s' = memOf s := by
+  unfold setPosAlignFrom at h
+  split_ok h with exact memOf_setCurPos _ _
+
+theorem Realloc.of_memOf_right {s s1 s' : State} {ptr np n total : Nat} (h : Realloc s s1 ptr np n total)
+    (hm : memOf s' = memOf s1) : Realloc s s' ptr np n total :=
+  ⟨fun k hk => by rw [readByte_congr hm]; exact h.prefix_eq k hk,
+   fun a ha hin => by rw [readByte_congr hm]; exact h.frame a ha hin⟩
+
+theorem liftM_sub_ok {a b v : Nat} (h : liftM (Rs.sub a b) = .ok v) : v = a - b ∧ b ≤ a := by
+  have := liftM_ok h
+  unfold Rs.sub at this
+  split at this
+  · cases this; exact ⟨rfl, by assumption⟩
+  · cases this
+
+theorem allocatePrepared_frame {cfg : Cfg} {s s' : State} {size rstart rend addr : Nat} {rev : Bool}
+    (hwf : MemWF s') (hold : ∀ k, k < size → InChunks s ((if rev then rend - size else rstart) + k))
+    (h : allocatePrepared cfg s size rstart rend rev = .ok (s', addr)) :
+    Realloc s s' (if rev then rend - size else rstart) addr size size := by
+  unfold allocatePrepared at h
+  cases rev
+  all_goals simp only [bind, Except.bind, pure, Except.pure, throw, throwThe, MonadExceptOf.throw,
+    Bool.false_eq_true, ↓reduceIte] at h hold ⊢
+  all_goals repeat' split at h
+  all_goals first | (cases h; done) | (cases h)
+  all_goals first
+    | exact Realloc.of_memOf (memOf_setCurPos _ _) _ _ _
+    | exact (Realloc.of_copy (MemExt.refl _) hwf.of_setCurPos hold (by assumption) (Nat.le_refl _)).setCurPos _
+    | (have e := (liftM_sub_ok (by assumption)).1
+       subst e
+       exact Realloc.of_memOf (memOf_setCurPos _ _) _ _ _)
+
+theorem allocatePreparedSlice_frame {cfg : Cfg} {s s' : State} {ptr len cap esize ealign addr : Nat} {rev : Bool}
+    (hwf : MemWF s')
+    (hold : ∀ k, k < len * esize → InChunks s ((if rev then ptr - len * esize else ptr) + k))
+    (h : allocatePreparedSlice cfg s ptr len cap esize ealign rev = .ok (s', addr)) :
+    Realloc s s' (if rev then ptr - len * esize else ptr) addr (len * esize) (len * esize) := by
+  unfold allocatePreparedSlice at h
+  cases rev
+  all_goals simp only [bind, Except.bind, pure, Except.pure, throw, throwThe, MonadExceptOf.throw,
+    Bool.false_eq_true, ↓reduceIte, Bool.not_false, Bool.not_true] at h hold ⊢
+  all_goals repeat' split at h
+  all_goals first | (cases h; done) | (cases h)
+  all_goals first
+    | exact Realloc.of_memOf (setPosAlignFrom_memOf (by assumption)) _ _ _
+    | exact (Realloc.of_copy (MemExt.refl _)
+        (MemWF.of_shape (shapeOf_of_memOf (setPosAlignFrom_memOf (by assumption))).symm hwf) hold (by assumption)
+        (Nat.le_refl _)).of_memOf_right (setPosAlignFrom_memOf (by assumption))
 
 end Arena
